@@ -34,7 +34,7 @@ type HandlerSpec struct {
 type StopSpec struct {
 	// Kind: signal | cancel | http | timeout
 	Kind string `json:"kind"`
-	// At: decision | launch | worker.beforeExec | retry.wait | repeat.wait | handlers
+	// At: decision | beforeLaunch | launch | worker.beforeExec | retry.wait | repeat.wait | handlers
 	At  string `json:"at"`
 	Nth int    `json:"nth"` // occurrence of that instant (0-based)
 }
@@ -629,6 +629,9 @@ func (r *Runner) onHook(c *Case, name string, arg any) {
 		} else {
 			r.freeLoop()
 		}
+	case "dagsched.beforeLaunch":
+		// after the loop's cancel check (and the preconditions), before the node is marked running
+		r.maybeStopAt("beforeLaunch", hookStep(arg))
 	case "dagsched.launch":
 		r.launchedIter++
 		r.maybeStopAt("launch", hookStep(arg))
